@@ -35,8 +35,9 @@ impl AnonymousIngressEngine {
   }
 
   pub fn deregister_pipe(&self, pipe_id: usize) {
+    // `local_cache` holds the unread frames of a message that was already taken out of the queue whole:
+    // a peer going away (this or any other) must not discard them from under a frame-by-frame reader.
     self.queue.deregister_pipe(pipe_id);
-    *self.local_cache.lock() = None;
   }
 
   pub fn close(&self) {
